@@ -10,7 +10,7 @@ TRUST = ("TLC 1.8; the harness' projections (harness/arun.py, trace.py); the pro
 CHECKS = {
     "C02": dict(level="model_checking", ref="6 C02",
                 technique="TLA+ law (RexLaw) + TLC confluence check + trace validation (RexTrace) of gate-scheduled and free-running executions, cross-run agreement clauses",
-                text="RexLaw is order-independent (MC_RexLawConfluence: all interleavings of the law's steps, fixed delay streams, terminal states agree); the real AsyncGraph is run under a deterministic one-thread-at-a-time scheduler with 5 policies x 3 driving styles x real-time factors (virtual time) and free-running; every record and every returned supervisor StepState must be a behaviour of RexLaw and agree with the first run on the common prefix."),
+                text="RexLaw is order-independent (MC_RexLawConfluence: all interleavings of the law's steps, fixed delay streams, terminal states agree); the real AsyncGraph is run under a deterministic one-thread-at-a-time scheduler with 5 policies x 3 driving styles x real-time factors (virtual time) and free-running; every record and every returned supervisor StepState must be a behaviour of RexLaw and agree with the first run on the common prefix; with Normal / mixture delays the runs of one initial graph state under different schedules must agree on the common prefix after projection to microseconds (RexOrder)."),
     "C03": dict(level="model_checking", ref="6 C03",
                 technique="TLA+ law (RexLaw) model-checked over all delay histories + trace validation (RexTrace) of episode records and probe logs; order-only trace validation (RexOrder) of continuous-distribution and wall-clock episodes",
                 text="The causality / FIFO / consumer-step / window clauses are invariants of RexLaw over all delay histories of small instances (TLC); every recorded episode of generated graphs (all policy combinations, heavy jitter) is validated against the law message by message; episodes with Normal / mixture delays and wall-clock episodes (gate, virtual time) are validated against the order relations of the statement (RexOrder)."),
